@@ -41,7 +41,7 @@ CLAIMED.update({
  "C01": dict(
    text="Deductive proof, per block and per request, on the real text of Watcher::{get_breaches, handle_breaches, filtered_block_connected, add_appointment, store_triggered_appointment, store_appointment}, "
         "Responder::{handle_breach, add_tracker}, Carrier::{send_transaction, in_mempool}: every stored appointment whose locator matches a transaction of the block (or of the 6-block cache at acceptance) is, "
-        "before the call returns, tracked with exactly (dispute, decrypt(blob, txid)), listed for dropping (undecryptable / node rejected), or its penalty is known to the node as confirmed; only matched appointments are touched. "
+        "before the call returns, tracked with exactly (dispute, decrypt(blob, txid)), listed for dropping (undecryptable / node rejected), or its penalty is known to the node as confirmed; only matched appointments are touched; an appointment is given up only if it is undecryptable or the node rejected its penalty, a tracker only if complete or rejected by the node. "
         "Whole-history form = this step invariant (winv/rinv are re-established by every entry point) ; no trace induction beyond that.",
    note=TB + " LDK ordering of block events, A2 fresh/distinct locators, decrypt = uninterpreted dec_spec (wiring proved in the blob unit). Known finding F3 (node says -27) is reported on every run.",
    technique=VT, ref="DESIGN.md §4 C01, §6"),
@@ -54,7 +54,8 @@ CLAIMED.update({
  "C04": dict(
    text="Deductive proof on the real text of Responder::{check_confirmations, handle_reorged_txs, rebroadcast_stale_txs, filtered_block_connected, block_disconnected, handle_breach}, ConfirmationStatus::*, "
         "Gatekeeper::delete_appointments: completed <=> confirmed, not reorged, exactly 100 deep; refund exactly for completed trackers (end-to-end equation on the users table), none for rejected ones; reorged trackers are "
-        "marked on disconnection and re-submitted (dispute then penalty) on the next connection; stale (>= 6 blocks) penalties re-submitted; confirmed heights never exceed the indexed tip (invariant).",
+        "marked on disconnection and re-submitted (dispute then penalty) on the next connection; stale (>= 6 blocks) penalties re-submitted; confirmed heights never exceed the indexed tip (invariant); a tracker is reported rejected iff the node's memoised verdict is Rejected (every such verdict is backed by a rejected submission in the RPC log) and "
+        "leaves the Responder only if complete or rejected by the node.",
    note=TB + " LDK delivers blocks in order; A1 ledger bound, A3 height >= 6, A4 heights < u32::MAX. Known finding F7 (rebroadcast answered -27) reported on every run; F12 fixed (7582f3f).",
    technique=VT, ref="DESIGN.md §4 C04, §6"),
  "C06": dict(
